@@ -2,6 +2,7 @@
 # See https://github.com/Xzya/django-web-components/blob/b43eb0c832837db939a6f8c1980334b0adfdd6e4/django_web_components/templatetags/components.py  # noqa: E501
 # And https://github.com/Xzya/django-web-components/blob/b43eb0c832837db939a6f8c1980334b0adfdd6e4/django_web_components/attributes.py  # noqa: E501
 
+import re
 from typing import Any, Dict, Mapping, Optional, Tuple
 
 from django.template import Context
@@ -9,6 +10,11 @@ from django.utils.html import conditional_escape, format_html
 from django.utils.safestring import SafeString, mark_safe
 
 from django_components.node import BaseNode
+
+# HTML has no way to escape a character inside an attribute NAME. Whitespace, quotes, `<`, `>`, `/` and `=`
+# end the name, so a name that contains any of them would be read as several attributes (or close the tag).
+# See https://html.spec.whatwg.org/multipage/syntax.html#attributes-2
+_INVALID_ATTR_NAME_RE = re.compile(r"[\s\"'<>/=\x00]")
 
 
 class HtmlAttrsNode(BaseNode):
@@ -92,6 +98,10 @@ def attributes_to_string(attributes: Mapping[str, Any]) -> str:
     for key, value in attributes.items():
         if value is None or value is False:
             continue
+        if _INVALID_ATTR_NAME_RE.search(str(key)):
+            raise ValueError(
+                f"Invalid HTML attribute name {key!r}: It must not contain whitespace, quotes, '<', '>', '/' or '='"
+            )
         if value is True:
             attr_list.append(conditional_escape(key))
         else:
